@@ -17,7 +17,7 @@ import numpy as np
 from ..core import AnalysisError, call_name, dotted
 from ..flow import dominating_atoms
 from .. import chains, fdx, fold
-from . import c03
+from . import c03, shared
 
 X, Y, Z, H = c03.PX, c03.PY, c03.PZ, c03.HAD
 I2 = np.eye(2, dtype=complex)
@@ -55,6 +55,8 @@ PROBES = [1, 0.5, -0.5, 0.25, -0.25, 0.3, -0.7, 2, 3, 1.5, 2.5, 0, 0.75]
 
 def run(ctx):
     repo = ctx.repo
+    shared.module_state_rule(ctx, 'C17.f', ['cirq-ionq/cirq_ionq/', 'cirq-aqt/cirq_aqt/', 'cirq-pasqal/cirq_pasqal/'], floor=2)
+    ctx.decided.append('C17.f vendor converters keep no state between calls (module-level containers never written from inside a function)')
     ctx.decided += [
         'C17.a IonQ QIS gate dictionaries == the Cirq gate up to global phase (probe + source-derived exponents); handlers without a generic form return None on fall-through; '
         'native gates pass their own parameters under the documented field names',
